@@ -256,6 +256,55 @@ fn call_paren_violations(ast: &Ast, cfg: &Config) -> Vec<String> {
     v.bad
 }
 
+/// C10, checked on the output text, with the reparsed output telling which lines lie inside a block comment or a long string (their
+/// content is not the formatter's): every line break is the configured one (inside those tokens too: they are converted), the file ends
+/// with exactly one, no other line ends with whitespace or is blank but not empty, and the leading whitespace of every other line is
+/// made of the configured indentation character only (spaces: a multiple of indent_width).
+fn whitespace_violations(ast: &Ast, out: &str, cfg: &Config) -> Vec<String> {
+    use full_moon::node::Node;
+    let crlf = matches!(cfg.line_endings, LineEndings::Windows);
+    let mut bad = vec![];
+    // a quoted or interpolated string that runs over several lines (`\` + line break, `\z`) keeps its line breaks and its continuation
+    // lines as they are, and full_moon's line numbers behind such a token are not reliable: such files are not judged here
+    for tr in ast.nodes().tokens() {
+        let bracket = matches!(tr.token().token_type(), TokenType::StringLiteral { quote_type, .. } if matches!(quote_type, full_moon::tokenizer::StringLiteralQuoteType::Brackets));
+        if !bracket && tr.token().to_string().contains('\n') { return bad; }
+    }
+    let b = out.as_bytes();
+    for (k, c) in b.iter().enumerate() {
+        if *c == b'\n' && crlf && (k == 0 || b[k - 1] != b'\r') { bad.push(format!("bare line feed at byte {k}")); break; }
+        if *c == b'\r' && (!crlf || k + 1 >= b.len() || b[k + 1] != b'\n') { bad.push(format!("stray carriage return at byte {k}")); break; }
+    }
+    if !out.is_empty() && (!out.ends_with('\n') || out.ends_with("\n\n") || out.ends_with("\n\r\n")) { bad.push("the output does not end with exactly one line break".into()); }
+    // lines (1-based) that start or end inside a multi-line token
+    let mut inside_start = std::collections::HashSet::new();   // the line starts inside the token: its leading whitespace is content
+    let mut inside_end = std::collections::HashSet::new();     // the line ends inside the token: its trailing whitespace is content
+    for tr in ast.nodes().tokens().chain(std::iter::once(ast.eof())) {
+        for t in tr.leading_trivia().chain(std::iter::once(tr.token())).chain(tr.trailing_trivia()) {
+            let multi = match t.token_type() { TokenType::MultiLineComment { .. } => true, TokenType::StringLiteral { quote_type, .. } => matches!(quote_type, full_moon::tokenizer::StringLiteralQuoteType::Brackets),
+                                               TokenType::StringLiteral { .. } => false, _ => false };
+            let (l0, l1) = (t.start_position().line(), t.end_position().line());
+            if l1 > l0 && (multi || matches!(t.token_type(), TokenType::StringLiteral { .. })) {
+                for l in l0..l1 { inside_end.insert(l); }
+                for l in (l0 + 1)..=l1 { inside_start.insert(l); }
+            }
+        }
+    }
+    for (n, line) in out.split('\n').enumerate() {
+        let ln = n + 1;
+        let line = line.strip_suffix('\r').unwrap_or(line);
+        if !inside_end.contains(&ln) && !inside_start.contains(&ln) && line.trim().is_empty() && !line.is_empty() { bad.push(format!("line {ln} holds only whitespace")); }
+        else if !inside_end.contains(&ln) && line.ends_with(|c: char| c == ' ' || c == '\t') && !line.trim().is_empty() { bad.push(format!("line {ln} ends with whitespace")); }
+        if !inside_start.contains(&ln) && !line.trim().is_empty() {
+            let ws: String = line.chars().take_while(|c| *c == ' ' || *c == '\t').collect();
+            let ok = match cfg.indent_type { IndentType::Tabs => ws.chars().all(|c| c == '\t'), IndentType::Spaces => ws.chars().all(|c| c == ' ') && ws.len() % cfg.indent_width.max(1) == 0 };
+            if !ok { bad.push(format!("line {ln} is indented with {:?}", ws)); }
+        }
+        if bad.len() > 3 { break; }
+    }
+    bad
+}
+
 /// C12, checked on input and output: with sort_requires the top-level statements are a permutation; the statements that are not
 /// requires keep their order and no require moves across one of them; requires bound to the same name keep their order
 fn sort_violations(i: &Ast, o: &Ast) -> Vec<String> {
@@ -279,6 +328,23 @@ fn sort_violations(i: &Ast, o: &Ast) -> Vec<String> {
     if seg(&ki) != seg(&ko) { bad.push("a require moved across a statement that is not a require".into()); }
     let by_name = |v: &Vec<(String, Option<String>)>| { let mut m = std::collections::BTreeMap::<String, Vec<String>>::new(); for x in v { if let Some(n) = &x.1 { m.entry(n.clone()).or_default().push(x.0.clone()) } } m };
     if by_name(&ki) != by_name(&ko) { bad.push("requires bound to the same name changed their order".into()); }
+    // in the output, two requires of the same kind that follow each other without a blank line or a comment line in between belong to
+    // one group: their names are in order
+    {
+        use full_moon::node::Node;
+        let stmts: Vec<_> = o.nodes().stmts().collect();
+        let kind = |k: &str| if k.contains("= require") { 1 } else { 2 };
+        for w in 0..stmts.len().saturating_sub(1) {
+            let (a, b) = (&ko[w], &ko[w + 1]);
+            if let (Some(na), Some(nb)) = (&a.1, &b.1) {
+                if kind(&a.0) != kind(&b.0) { continue }
+                let lead = stmts[w + 1].surrounding_trivia().0;
+                let newlines: usize = lead.iter().map(|t| match t.token_type() { TokenType::Whitespace { characters } => characters.as_str().matches('\n').count(), _ => 0 }).sum();
+                let comment = lead.iter().any(|t| !matches!(t.token_type(), TokenType::Whitespace { .. }));
+                if newlines == 0 && !comment && na > nb { bad.push(format!("requires `{}` and `{}` stand in one group in the wrong order", na, nb)); }
+            }
+        }
+    }
     bad
 }
 
@@ -334,6 +400,7 @@ fn corpus(args: &[String]) {
             if !cfg.sort_requires.enabled && (si != so || ni != no) { fail("literals", "literal values differ".into()); }
             if !src.contains("stylua:") { for b in call_paren_violations(&o2, &cfg).into_iter().take(3) { fail("callparens", b); } }   // ignored statements keep their form
             if cfg.sort_requires.enabled { for b in sort_violations(&i, &o2) { fail("sort", b); } }
+            if !src.contains("stylua:") { for b in whitespace_violations(&o2, &out, &cfg).into_iter().take(2) { fail("whitespace", b); } }   // ignored statements keep their whitespace
         }
     }
     println!("{}", json!({"files": files, "runs": runs, "failures": failures}));
